@@ -227,9 +227,25 @@ func c16Property(t *rapid.T) {
 			r.objs = append(r.objs, c+":"+s)
 		}
 	}
-	r.status = r.snapshot()
-	r.ops = append(r.ops, fmt.Sprintf("world std audit=%v statuses=%v", audit, r.status))
 	pairs := stdPairs(w)
+	unordered := rapid.IntRange(0, 2).Draw(t, "unorderedService") != 0
+	if unordered {
+		// an unordered destination service (requests to it are delivered as a batch, without index order), with and
+		// without a blacklist entry: availability and permission gate it like every other destination
+		bl := ""
+		if rapid.Bool().Draw(t, "unorderedBlacklist") {
+			bl = sim.FullID(w.BxhID, "chainA", "s2")
+		}
+		w.RegisterService(sim.ChainAdmins["chainB"], "chainB", "u1", false, bl)
+		r.objs = append(r.objs, "chainB:u1")
+		mk := func(sc, ss string, ok bool) *ibtpPair {
+			return &ibtpPair{from: sim.FullID(w.BxhID, sc, ss), to: sim.FullID(w.BxhID, "chainB", "u1"), srcChain: sc, dstChain: "chainB",
+				srcKey: sim.ChainAdmins[sc], dstKey: sim.ChainAdmins["chainB"], destOK: ok}
+		}
+		pairs = append(pairs, mk("chainA", "s1", true), mk("chainA", "s2", bl == ""), mk("chainC", "s1", true))
+	}
+	r.status = r.snapshot()
+	r.ops = append(r.ops, fmt.Sprintf("world std audit=%v unordered destination chainB:u1=%v statuses=%v", audit, unordered, r.status))
 	chainOf := func(obj string) string { return strings.Split(obj, ":")[0] }
 	servicesOf := func(chain string) []string {
 		var out []string
